@@ -1,8 +1,6 @@
 package redis
 
 import (
-	"slices"
-	"sort"
 	"strings"
 
 	"github.com/New-JAMneration/JAM-Protocol/internal/database"
@@ -29,8 +27,7 @@ func (db *redisDB) NewIterator(prefix []byte, start []byte) (database.Iterator, 
 	allKeys := make([]string, 0, 100)
 	var err error
 
-	prefixString := string(prefix)
-	pattern := globEscape(prefixString) + "*"
+	pattern := globEscape(startString) + "*"
 
 	for {
 		var keys []string
@@ -39,9 +36,9 @@ func (db *redisDB) NewIterator(prefix []byte, start []byte) (database.Iterator, 
 			return nil, err
 		}
 
-		// Keep the keys with the prefix that are not below prefix||start
+		// Filter keys that match the prefix
 		for _, key := range keys {
-			if strings.HasPrefix(key, prefixString) && key >= startString {
+			if strings.HasPrefix(key, startString) {
 				allKeys = append(allKeys, key)
 			}
 		}
@@ -50,10 +47,6 @@ func (db *redisDB) NewIterator(prefix []byte, start []byte) (database.Iterator, 
 			break
 		}
 	}
-
-	// SCAN returns keys in no particular order and may repeat them
-	sort.Strings(allKeys)
-	allKeys = slices.Compact(allKeys)
 
 	// Pre-allocate capacity for keys and values
 	keys := make([][]byte, 0, len(allKeys))
